@@ -94,9 +94,9 @@ func runC17(c *Ctx) {
 						if name == "SkipPrivateHops" {
 							if ld, ok := x.Val.(*ssa.UnOp); ok {
 								if fa2, ok := ld.X.(*ssa.FieldAddr); ok {
-									if g, ok := fa2.X.(*ssa.Global); ok && g.Name() == "Args" {
-										n2 := g.Type().(*types.Pointer).Elem().Underlying().(*types.Struct).Field(fa2.Field).Name()
-										litOK = n2 == "skipPrivateHops"
+									// the flag struct itself, or the receiver / parameter of a builder that every caller hands the flag struct
+									if g, ok := c.P.DefX(fa2.X).(*ssa.Global); ok && g.Name() == "Args" {
+										litOK = core.FieldName(fa2) == "skipPrivateHops"
 									}
 								}
 							}
